@@ -11,6 +11,7 @@ import (
 	"encoding/json"
 	"os"
 	"testing"
+	"time"
 
 	"github.com/snower/slock/protocol"
 )
@@ -60,7 +61,11 @@ func (w *vWorld) runSeqStep(nextId *int64, r *vReq, snapEvery bool) {
 		w.curReq = id
 		w.Issue(id, r)
 		w.curReq = -1
-		w.tr.Emit(map[string]interface{}{"e": "ret", "id": id, "t": w.now})
+		w.tr.Emit(map[string]interface{}{"e": "ret", "id": id, "t": w.sec(), "ms": w.ms()})
+	case "sleep":
+		// real-time engine only: let the wall clock (and the server's own sweepers) run
+		time.Sleep(time.Duration(r.N) * time.Millisecond)
+		w.tr.Emit(map[string]interface{}{"e": "slept", "n": r.N, "t": w.sec(), "ms": w.ms()})
 	case "tick":
 		n := r.N
 		if n <= 0 {
@@ -81,11 +86,17 @@ func (w *vWorld) runSeqStep(nextId *int64, r *vReq, snapEvery bool) {
 		w.slock.state = uint8(r.Status)
 		for _, db := range w.slock.dbs {
 			if db != nil {
+				for i := uint16(0); i < db.managerMaxGlocks; i++ {
+					db.managerGlocks[i].LowPriorityLock()
+				}
 				db.status = uint8(r.Status)
+				for i := uint16(0); i < db.managerMaxGlocks; i++ {
+					db.managerGlocks[i].LowPriorityUnlock()
+				}
 			}
 		}
 		w.slock.glock.Unlock()
-		w.tr.Emit(map[string]interface{}{"e": "status", "status": r.Status, "t": w.now})
+		w.tr.Emit(map[string]interface{}{"e": "status", "status": r.Status, "t": w.sec()})
 	case "drain":
 		// let every timer fire, then release every remaining hold by its LockId (Rcount=0 removes all depth)
 		for i := 0; i < r.N; i++ {
@@ -109,7 +120,7 @@ func (w *vWorld) runSeqStep(nextId *int64, r *vReq, snapEvery bool) {
 					w.curReq = id
 					w.Issue(id, u)
 					w.curReq = -1
-					w.tr.Emit(map[string]interface{}{"e": "ret", "id": id, "t": w.now})
+					w.tr.Emit(map[string]interface{}{"e": "ret", "id": id, "t": w.sec(), "ms": w.ms()})
 				}
 			}
 			if !any {
@@ -176,6 +187,32 @@ func TestVerifS(t *testing.T) {
 			w.runSeqStep(&nextId, &sc.Steps[j], sc.Snap == 0)
 		}
 		tr.Emit(map[string]interface{}{"e": "end", "name": sc.Name, "idx": i, "t": w.now, "complete": sc.Complete})
+		w.Close(true)
+	}
+}
+
+// Engine RT: the same step interpreter on the REAL clock with the server's own sweeper goroutines
+// (hook H1 off).  Used for millisecond timers, which the code drives with time.Now() and sleeps.
+func TestVerifRT(t *testing.T) {
+	in, out := vEnvInOut(t)
+	if in == "" {
+		return
+	}
+	scs := vReadScenarios(in)
+	tr := vOpenTrace(out)
+	defer tr.Close()
+	for i, sc := range scs {
+		sc.Cfg.RealClock = true
+		w := vNewWorld(t, sc.Cfg, tr, 0)
+		tr.Emit(map[string]interface{}{"e": "begin", "name": sc.Name, "idx": i, "t": w.sec(), "mode": "rt"})
+		nextId := int64(1)
+		for j := range sc.Steps {
+			w.runSeqStep(&nextId, &sc.Steps[j], sc.Snap == 0)
+		}
+		ev := w.Snapshot()
+		ev["final"] = false
+		tr.Emit(ev)
+		tr.Emit(map[string]interface{}{"e": "end", "name": sc.Name, "idx": i, "t": w.sec(), "ms": w.ms(), "complete": sc.Complete})
 		w.Close(true)
 	}
 }
